@@ -70,7 +70,15 @@ add_int_binop!(
             Err(ManagedXError::new("Modulo by zero", rt.clone())?)
         } else {
             rt.can_afford(b)?;
-            Ok(XValue::Int(a.clone() % b.clone()))
+            // floored modulo: the result has the sign of the divisor (`%` on integers truncates)
+            let r = a.clone() % b.clone();
+            Ok(XValue::Int(
+                if !r.is_zero() && r.is_negative() != b.is_negative() {
+                    r + b.clone()
+                } else {
+                    r
+                },
+            ))
         })
     }
 );
